@@ -10,6 +10,10 @@ CLAIMED = {
    technique="deterministic simulation: seeded two-endpoint sessions over an in-flight bag, random-source seam (SimRand), round-trip oracle",
    text="Seeded simulation of two endpoints of one SA in opposite roles: every IV/padding outcome is drawn through the crypto/rand.Reader seam (plain, short reads, adversarial octets, repeated streams), messages span the whole encodable domain and all 9 suites x 2 directions x 2 header modes (stratified), transport reorders and duplicates; oracle: decoded spec == sent spec, nil-key path == plain codec. Exploration is the right level: the space (messages x keys x random outcomes) is unbounded and there is no finite fault set to enumerate.",
    note="Trusts the harness's spec builder/extractor (exported fields only) and that sampled messages represent the domain; a clean batch is evidence, not proof."),
+ "C02": dict(level="fault_enumeration", ref="DESIGN.md §3 C02",
+   technique="deterministic simulation with transport fault injection: exhaustive per-message bit-flip/prefix/SK-shrink/first-type enumeration plus seeded edits, splices, extensions, cross-key and reflected delivery; spy cipher/MAC objects",
+   text="The network between two simulated endpoints corrupts datagrams in flight. For each scenario's target message the fault set is enumerated completely (every single-bit flip, every proper prefix, SK body shrunk to every small size, every first-payload type) and further faults are sampled (format-aware extensions, edits, splices, IV/ICV/block swaps, cross-key, reflection). Oracles: no panic; reject whenever the independent chain walker says an Encrypted payload is presented; no key use on the plain path; spy in the public Encr_* fields never sees Decrypt for bytes that are not a genuine message for the receiver. Fault enumeration per message is the natural level: the single-fault space of one datagram is finite.",
+   note="Exhaustive per sampled message, sampled over messages/keys/suites. Genuine-set membership and 'presents SK' are decided by the harness's reference chain walker. HMAC collisions treated as never."),
 }
 
 NA_REASON = "pure function of its input: no schedule, clock, fault, history on a stateful object, random outcome or second party for a simulator to decide (DESIGN.md §4)"
